@@ -199,7 +199,7 @@ class MessageDispatcher(ClientMessageSink):
     if timeout:
       # Calculate the deadline for this method call.
       # Reduce it by the time it took for the open() to complete.
-      deadline = start_time + timeout - open_latency
+      deadline = start_time + timeout
     else:
       deadline = None
 
